@@ -54,6 +54,8 @@ def run_tlc(job, tier, seed, wd, extra_env=None):
     cfg = ["SPECIFICATION %s" % job.get("spec", "Spec"), "CONSTANTS"]
     for k, v in consts.items():
         cfg.append('  %s = %s' % (k, json.dumps(v) if isinstance(v, str) else v))
+    for k, v in job.get("subst", {}).items():
+        cfg.append('  %s <- %s' % (k, v))
     inv = job.get("invariants", [])
     if inv:
         cfg.append("INVARIANTS")
@@ -98,6 +100,11 @@ def run_tlc(job, tier, seed, wd, extra_env=None):
                     ncases += 1
                 except Exception as e:          # a CASE line broken by interleaved output
                     errors.append("unparsable CASE line: %s" % e)
+                continue
+            if line.startswith('<<"ATOMS", '):
+                s = line.rstrip("\n")[len('<<"ATOMS", '):-2]
+                o.write(json.dumps({"t": "atoms", "table": json.loads(json.loads(s))}) + "\n")
+                ncases += 1
                 continue
             m = STATS_RE.search(line)
             if m:
